@@ -4,6 +4,7 @@ import Katib.Drv.Status
 import Katib.Drv.Sim
 import Katib.Drv.C19
 import Katib.Drv.C15
+import Katib.Drv.C08S
 import Katib.Drv.C10
 import Katib.Drv.C17
 import Katib.Drv.C13
@@ -23,6 +24,7 @@ def handle (toks : List String) : String :=
   | "C03" :: r => handleStatus r
   | "C19" :: r => handleC19 r
   | "C15" :: r => handleC15 r
+  | "C08S" :: r => handleC08S r
   | "C10" :: r => handleC10 r
   | "C17" :: r => handleC17 r
   | "C13" :: r => handleC13 r
@@ -41,6 +43,7 @@ def handleOracle (toks out : List String) : String :=
   | "C03" :: r => oracleLineStatus "C03" r out
   | "C19" :: r => oracleLineC19 r out
   | "C15" :: r => oracleLineC15 r out
+  | "C08S" :: r => oracleLineC08S r out
   | "C10" :: r => oracleLineC10 r out
   | "C17" :: r => oracleLineC17 r out
   | "C13" :: r => oracleLineC13 r out
